@@ -166,6 +166,23 @@ def run(ctx):
                          [r.tolist(), e.tolist()], [mres.tolist(), merr.tolist()], 'array call')
         else:
             eng['bit_identical'] += 1
+        # the property itself, on the implementation alone: an array call is the scalar call of every element (bit for bit)
+        flat_r, flat_e = [], []
+        with warnings.catch_warnings():
+            warnings.simplefilter('ignore')
+            for a, b, c in zip(keep[0].ravel(), keep[1].ravel(), keep[2].ravel()):
+                r1, e1 = dea3(a, b, c)
+                flat_r.append(float(np.ravel(r1)[0]))
+                flat_e.append(float(np.ravel(e1)[0]))
+        sr, se = np.array(flat_r).reshape(shape), np.array(flat_e).reshape(shape)
+        if sym and shape[0] > 1:
+            sr, se = sr[:-1], se[1:]
+        if r.shape == sr.shape and e.shape == se.shape and \
+                not (np.array_equal(r, sr, equal_nan=True) and np.array_equal(e, se, equal_nan=True)):
+            bad = np.argwhere(~((r == sr) | (np.isnan(r) & np.isnan(sr))) | ~((e == se) | (np.isnan(e) & np.isnan(se))))
+            ctx.violation('dea3 does not treat array inputs elementwise: an element of the array call differs from the scalar call on that element',
+                          shape=list(shape), symmetric=sym, index=bad[0].tolist() if len(bad) else None,
+                          inputs=[x.tolist() for x in keep], array_call=[r.tolist(), e.tolist()], scalar_calls=[sr.tolist(), se.tolist()])
 
     # ---------------- failing-input search on the implementation ------------------------------
     budget = ctx.budget(6000, 60000)
@@ -182,6 +199,19 @@ def run(ctx):
     with warnings.catch_warnings():
         warnings.simplefilter('ignore')
         res, err = dea3(tr[:, 0].copy(), tr[:, 1].copy(), tr[:, 2].copy())
+    # the same triples as a 2-d batch (columns of unrelated magnitudes): every element must come out as in the 1-d call
+    cols = rng.choice([3, 4, 7])
+    nrow = len(geo) // cols
+    with warnings.catch_warnings():
+        warnings.simplefilter('ignore')
+        res2, err2 = dea3(*[tr[:nrow * cols, j].reshape(nrow, cols).copy() for j in range(3)])
+    same = ((res2.ravel() == res[:nrow * cols]) | (np.isnan(res2.ravel()) & np.isnan(res[:nrow * cols]))) & \
+           ((err2.ravel() == err[:nrow * cols]) | (np.isnan(err2.ravel()) & np.isnan(err[:nrow * cols])))
+    if not np.all(same):
+        i = int(np.argmin(same))
+        ctx.violation('dea3 does not treat array inputs elementwise: the (rows, %d) batch differs from the 1-d call' % cols, index=i,
+                      e=tr[i].tolist(), batch=[float(res2.ravel()[i]), float(err2.ravel()[i])], flat=[float(res[i]), float(err[i])],
+                      exact_limit=geo[i][0])
     for i, (L, a, q, k) in enumerate(geo):
         e0, e1, e2 = tr[i]
         r, ae = float(res[i]), float(err[i])
